@@ -104,6 +104,9 @@ class C15(fw.Prop):
                     ids[b] = c[1]
                     return ("o", b)
                 data = c14.ref_encode(("a", [("s", [to_tree(c) for c in r]) for r in rows]))
+                if d.get("long_count") and data[1] < 0x80:
+                    # the number of rows written in the long form (0x81 n / 0x82 00 n), as some meters do for every length
+                    data = data[:1] + (bytes([0x81, data[1]]) if d["long_count"] == 1 else bytes([0x82, 0x00, data[1]])) + data[2:]
                 out = parser.parse_bytes(data)
             elif d.get("via_profile"):
                 # through the profile-generic object of the COSEM layer (always the same logical name, as one meter model
@@ -230,6 +233,8 @@ class C15(fw.Prop):
             yield self.make_case(d)
             if k % 3 == 0:
                 yield self.make_case(dict(d, via_bytes=True))
+            if k % 6 == 1:
+                yield self.make_case(dict(d, via_bytes=True, long_count=1 + k % 2))
             if k % 4 == 1:
                 yield self.make_case(dict(d, via_profile=True, sort_method=rng.choice([None, 1, 2, 3, 4, 5, 6])))
             if k % 5 == 2:
